@@ -7,6 +7,7 @@ import Driver.Ops.XMap
 import Driver.Ops.Grp
 import Driver.Ops.Sec
 import Driver.Ops.Dis
+import Driver.Ops.Orb
 import Driver.Ops.Codec
 /-
 Line-protocol driver.  One request per line (`<op> <args…>`), one response line per request.
@@ -26,6 +27,7 @@ def handlers : List (String × (List String → String)) := [
   ("grp", Grp.handle),
   ("sec", Sec.handle),
   ("dis", Dis.handle),
+  ("orb", Orb.handle),
   ("codec", Codec.handle)
 ]
 
